@@ -76,7 +76,11 @@ def stepLine (s : Sys) (toks : List String) : Sys × String :=
   | none => (s, "bad-op")
   | some op =>
     let (s', o) := step Secrets.shaF s op
-    (s', outStr o ++ " | " ++ digest s'.mem)
+    -- did the request write the channel entry?  (`persisted` of the channel method; a restart writes nothing)
+    let w := match op with
+      | .restart => false
+      | op => (chanStep Secrets.shaF s.mem op).persisted
+    (s', outStr o ++ " | " ++ digest s'.mem ++ (if w then " w=1" else " w=0"))
 
 def model : Model := { σ := Sys, init := init, step := stepLine }
 
